@@ -2,6 +2,7 @@ import VaxisModel.Model.Wrap
 import VaxisModel.Spec.Wrap
 import VaxisModel.Lemmas.Wrap
 import VaxisModel.Lemmas.WrapE2E
+import VaxisModel.Lemmas.WrapSplit
 import VaxisModel.Witness.F116
 
 /-! C16, end-to-end statements: the position oracles of `Spec.Wrap` that the driver evaluates on the
@@ -73,6 +74,31 @@ theorem rich_lines_no_terminator (lb : Nat → Nat → Bool) (width : Nat) (cell
     (hsp : ∀ c ∈ cells, c.term = true → c.sp = true)
     (ls : List (List Cell)) (h : richLines lb width cells = .ok ls) : noTermInLines ls = true :=
   scanAll_noterm _ (richOracle_ok lb) (richOracle_term lb) width _ cells () ls hsp h
+
+/-- "never split a run of letters that would fit on a line of its own", end to end, richtext: in the
+lines of the whole iteration, two neighbouring non-whitespace graphemes of one unbreakable run
+(`Spec.Wrap.runs` under the pairwise break function `lb` that `firstLineSegment` consults) land on
+different lines only if the run without its trailing whitespace is wider than the line
+(`Spec.Wrap.noNeedlessSplit`, the oracle the driver evaluates on the real output).  For every
+text whose line terminators are whitespace (true of Unicode), every positive width, every `lb`. -/
+theorem rich_no_needless_split_end_to_end (lb : Nat → Nat → Bool) (width : Nat) (hw : 0 < width)
+    (cells : List Cell) (hsp : ∀ c ∈ cells, c.term = true → c.sp = true)
+    (ls : List (List Cell)) (h : richLines lb width cells = .ok ls) :
+    noNeedlessSplit lb width cells ls = true :=
+  richLines_noNeedlessSplit lb width hw cells hsp ls h
+
+/-- Non-vacuity for `rich_no_needless_split_end_to_end`: "ab cd" at width 3 keeps "ab" and "cd" whole
+(and the oracle rejects the cutting "a" | "b cd"); "abcd" at width 3 is divided, which the oracle
+accepts because the run does not fit. -/
+example :
+    let a : Cell := { g := 0, w := 1, style := 1, sp := false, term := false, nl := false }
+    let s : Cell := { g := 1, w := 1, style := 0, sp := true, term := false, nl := false }
+    let lb : Nat → Nat → Bool := fun x _ => x == 1
+    richLines lb 3 [a, a, s, a, a] = .ok [[a, a, s], [a, a]] ∧
+    noNeedlessSplit lb 3 [a, a, s, a, a] [[a, a, s], [a, a]] = true ∧
+    noNeedlessSplit lb 3 [a, a, s, a, a] [[a], [a, s, a, a]] = false ∧
+    richLines lb 3 [a, a, a, a] = .ok [[a, a, a], [a]] ∧
+    noNeedlessSplit lb 3 [a, a, a, a] [[a, a, a], [a]] = true := by decide
 
 /-- Non-vacuity: "a\nb" at width 5 gives two lines although both letters would fit on one. -/
 example :
